@@ -17,7 +17,7 @@ func init() {
 		Decided: "(b) TLSConn.Read consumes the underlying stream only through full reads of exactly the 5-byte header and exactly the declared body, and returns the body read's count; (c) a record longer than the caller's buffer (or a buffer shorter than a header) is an error before any body byte is read; " +
 			"(d) a message leaves through exactly one underlying Write of a buffer private to the call, whose length bytes are msgLen>>8, msgLen&0xff, under the dominating limit test, and the pooled buffer is reset to its 3-byte prefix on every path before it is returned to the pool; " +
 			"(e) WebSocket message writes and Close hold the write mutex exclusively, one Read takes one message and reports an error instead of a truncated message; (f) deplex hands each successful read to the session exactly once with buf[:n] of that read, and send writes its argument unmodified once.",
-		NotDecided: "(a) the statement over all segmentations as such (it follows from (b)-(d) given TCP's in-order byte stream, which is assumed); gorilla/websocket's own framing; that the peer's limit equals ours (C10.R5).",
+		NotDecided:  "(a) the statement over all segmentations as such (it follows from (b)-(d) given TCP's in-order byte stream, which is assumed); gorilla/websocket's own framing; that the peer's limit equals ours (C10.R5).",
 		Assumptions: []string{"io.ReadFull/ReadAtLeast contracts", "net.Conn.Write of one buffer is atomic with respect to other Write calls on the same connection (Go net package serialises writes)"},
 	})
 }
